@@ -452,6 +452,103 @@ func checkC02(e *Engine, r *Report) {
 		}
 	})
 
+	r.Rule("R2", "LOOP-COMPLETE", "access-list preparation mirrors go-ethereum's StateDB.PrepareAccessList: sender and destination are warmed, and in the loops over the precompiles and over the transaction's access list every completed iteration has warmed its address and — in the nested loop — every storage key of the entry (the only permitted skip is the zero address of the custom-precompile list); a skipped entry or key is charged cold (2600/2100 instead of 100) although the transaction paid for it in the intrinsic gas", 4, func() {
+		pf := e.Fn(pkgEvmVM, "cStateDb.prepareByGoEthereum")
+		isAdd := func(c ssa.CallInstruction, nm string) bool {
+			return isCallTo(c, CallSpec{pkgEvmVM, "AccessList2", nm})
+		}
+		reg := e.privateRegion(pf) // the warm-up may live in a single-site private helper
+		nAdds := 0
+		var probs []string
+		inLoop := map[ssa.CallInstruction]bool{}
+		for _, f := range reg.Fns {
+			loops := loopsOf(f)
+			innermost := func(b *ssa.BasicBlock) *Loop {
+				var best *Loop
+				for _, l := range loops {
+					if l.Body[b] && (best == nil || len(l.Body) < len(best.Body)) {
+						best = l
+					}
+				}
+				return best
+			}
+			// zero-address skip: `if addr == (common.Address{}) { continue }` or `if addr != (common.Address{}) { add }`
+			type bedge struct{ from, to *ssa.BasicBlock }
+			zeroSkip := map[bedge]bool{}
+			for _, i := range ifs(f) {
+				b, ok := i.Cond.(*ssa.BinOp)
+				if !ok || (b.Op != token.EQL && b.Op != token.NEQ) || namedTypePath(b.X.Type()) != GETH+"/common.Address" {
+					continue
+				}
+				isZero := func(v ssa.Value) bool {
+					if c, isC := v.(*ssa.Const); isC {
+						return c.Value == nil
+					}
+					if u, isU := v.(*ssa.UnOp); isU && u.Op == token.MUL {
+						if a, isA := u.X.(*ssa.Alloc); isA {
+							return len(storesTo(a)) == 0
+						}
+					}
+					return false
+				}
+				if isZero(b.X) || isZero(b.Y) {
+					if b.Op == token.EQL {
+						zeroSkip[bedge{i.Block(), i.Block().Succs[0]}] = true
+					} else {
+						zeroSkip[bedge{i.Block(), i.Block().Succs[1]}] = true
+					}
+				}
+			}
+			for _, nm := range []string{"AddAddress", "AddSlot"} {
+				for _, c := range callsIn(f, false, func(c ssa.CallInstruction) bool { return isAdd(c, nm) }) {
+					l := innermost(c.Block())
+					if l == nil {
+						continue
+					}
+					inLoop[c] = true
+					nAdds++
+					// can an iteration of l complete without passing c's block?
+					seen := map[*ssa.BasicBlock]bool{}
+					var work []*ssa.BasicBlock
+					for _, sc := range l.Header.Succs {
+						if l.Body[sc] && sc != l.Header {
+							work = append(work, sc)
+						}
+					}
+					skipped := false
+					for len(work) > 0 {
+						b := work[len(work)-1]
+						work = work[:len(work)-1]
+						if seen[b] || !l.Body[b] || b == c.Block() {
+							continue
+						}
+						if b == l.Header {
+							skipped = true
+							break
+						}
+						seen[b] = true
+						for _, sc := range b.Succs {
+							if !zeroSkip[bedge{b, sc}] { // the zero-address branch may go round without the call
+								work = append(work, sc)
+							}
+						}
+					}
+					r.Check(!skipped, "prepareByGoEthereum › every iteration reaches "+nm+" ("+e.Pos(c.Pos())+")", e.Pos(c.Pos()), "no path round the loop avoids the call", "an iteration of the warm-up loop can complete without "+nm+": an address or storage key the transaction listed (and paid for) stays cold")
+				}
+			}
+			probs = append(probs, importLoopProblems(e, f)...)
+		}
+		r.Check(len(probs) == 0 && nAdds >= 3, "prepareByGoEthereum › nested storage-key loop always visited", e.Pos(pf.Pos()), "every access-list entry's keys are walked", "the keys of an access-list entry can be skipped: "+strings.Join(probs, "; "))
+		// sender
+		nSender := 0
+		for _, c := range reg.Calls(func(c ssa.CallInstruction) bool { return isAdd(c, "AddAddress") }) {
+			if !inLoop[c] && reg.Resolve(c.Common().Args[1]) == ssa.Value(pf.Params[2]) {
+				nSender++
+			}
+		}
+		r.Check(nSender == 1, "prepareByGoEthereum › sender warmed", e.Pos(pf.Pos()), "al.AddAddress(sender) outside any loop", "the sender is not added to the access list")
+	})
+
 	r.Rule("R6", "FORK-LINT", "a slice created with a non-zero length and then only appended to leaks its zero-valued prefix: the fork's EVM.GetCustomPrecompiledContractsAddress must not put the zero address into every transaction's warm set", 1, func() {
 		fn := e.Fn(pkgGethVM, "EVM.GetCustomPrecompiledContractsAddress")
 		bad := false
